@@ -185,6 +185,40 @@ func (x *vC01World) nsec(z *vC01Zone, owner string, types ...uint16) []dns.RR {
 	return x.sign(z, z.zsk, &dns.NSEC{Hdr: dns.RR_Header{Name: owner, Rrtype: dns.TypeNSEC, Class: dns.ClassINET, Ttl: 60}, NextDomain: x.sub("zzz", z.name), TypeBitMap: types})
 }
 
+// vC01Siblings: two names just outside zone (its first label with the last octet one lower / one higher), so that
+// every name at or below zone lies canonically between them
+func vC01Siblings(zone string) (lo, hi string) {
+	labels := dns.SplitDomainName(zone)
+	if len(labels) == 0 {
+		return "", ""
+	}
+	f := []byte(strings.ToLower(labels[0]))
+	c := f[len(f)-1]
+	if c <= 'a' || c >= 'z' {
+		return "", ""
+	}
+	rest := strings.Join(labels[1:], ".") + "."
+	if len(labels) == 1 {
+		rest = ""
+	}
+	mk := func(b byte) string { return string(f[:len(f)-1]) + string(b) + "." + rest }
+	return mk(c - 1), mk(c + 1)
+}
+
+func vC01HashMinus(h string) string {
+	const alpha = "0123456789ABCDEFGHIJKLMNOPQRSTUV"
+	b := []byte(strings.ToUpper(h))
+	for i := len(b) - 1; i >= 0; i-- {
+		v := strings.IndexByte(alpha, b[i])
+		if v > 0 {
+			b[i] = alpha[v-1]
+			break
+		}
+		b[i] = 'V'
+	}
+	return string(b)
+}
+
 func vC01HashPlus(h string) string {
 	const alpha = "0123456789ABCDEFGHIJKLMNOPQRSTUV"
 	b := []byte(strings.ToUpper(h))
@@ -245,6 +279,9 @@ func (x *vC01World) dsMsg(name string) *dns.Msg {
 	m := x.newMsg(name, dns.TypeDS)
 	p := x.zoneOf(name, true)
 	child := x.zoneNamed(name)
+	// the table stands for what the store holds under CD=0: the sub-query's own validation authenticated this answer
+	// exactly when the zone that gave it is signed and every cut above it is a secure one
+	m.AuthenticatedData = p != nil && p.signed && !x.insecureAbove(p)
 	if child != nil && child.parent != nil {
 		switch child.cut {
 		case "secure", "island":
@@ -261,6 +298,7 @@ func (x *vC01World) dsMsg(name string) *dns.Msg {
 			return m
 		default: // unproven: NODATA without a denial
 			m.Ns = x.soa(p)
+			m.AuthenticatedData = false
 			return m
 		}
 	}
@@ -413,30 +451,46 @@ func (x *vC01World) orcEntries(r *Resolver, m *dns.Msg, subject string, signers 
 	return out
 }
 
-// wildcard oracle: the exported verifier on a one-signature message
+// wildcard oracle: the exported verifier on a one-signature message, once for each authority section it could be
+// shown — the records inside the signer's zone (what answer() hands it) and the section as received. The entry is
+// keyed by the (type, rdata id) list of the NSEC/NSEC3 records shown, so the MODEL decides which of the two is asked.
 func (x *vC01World) wildEntries(r *Resolver, m *dns.Msg, signers []string) []string {
 	var out []string
+	view := func(ns []dns.RR) string {
+		var v []string
+		for _, rr := range ns {
+			if t := rr.Header().Rrtype; t == dns.TypeNSEC || t == dns.TypeNSEC3 {
+				v = append(v, fmt.Sprintf("(%d,%d)", t, x.w.rid(rr)))
+			}
+		}
+		return "[" + strings.Join(v, ";") + "]"
+	}
 	for _, s := range signers {
-		ns := dnsutil.FilterRRsToZone(m.Ns, s)
-		for _, rr := range m.Answer {
-			sig, ok := rr.(*dns.RRSIG)
-			if !ok || int(sig.Labels) >= dns.CountLabel(sig.Hdr.Name) {
-				continue
+		sections := [][]dns.RR{dnsutil.FilterRRsToZone(m.Ns, s)}
+		if view(m.Ns) != view(sections[0]) {
+			sections = append(sections, m.Ns)
+		}
+		for _, ns := range sections {
+			for _, rr := range m.Answer {
+				sig, ok := rr.(*dns.RRSIG)
+				if !ok || int(sig.Labels) >= dns.CountLabel(sig.Hdr.Name) {
+					continue
+				}
+				labels := dns.SplitDomainName(sig.Hdr.Name)
+				nc := strings.Join(labels[len(labels)-int(sig.Labels)-1:], ".") + "."
+				one := new(dns.Msg)
+				one.Question = m.Question
+				one.Answer = []dns.RR{sig}
+				one.Ns = ns
+				secure, err := dnssec.VerifyWildcardAnswerForZoneWithWork(one, s, r.dnssecWork(context.Background()))
+				res := fmt.Sprintf("WRes true %s", vC01Bool(secure))
+				if errors.Is(err, dnssec.ErrWildcardNoDenial) {
+					res = "WRes false false"
+				} else if err != nil {
+					res = "WErr " + vC01ErrTerm(err)
+				}
+				out = append(out, fmt.Sprintf("(%d,%s,%s,%s,%s)", x.msgs[m], view(ns), x.w.name(nc), x.w.name(s), res))
 			}
-			labels := dns.SplitDomainName(sig.Hdr.Name)
-			nc := strings.Join(labels[len(labels)-int(sig.Labels)-1:], ".") + "."
-			one := new(dns.Msg)
-			one.Question = m.Question
-			one.Answer = []dns.RR{sig}
-			one.Ns = ns
-			secure, err := dnssec.VerifyWildcardAnswerForZoneWithWork(one, s, r.dnssecWork(context.Background()))
-			res := fmt.Sprintf("WRes true %s", vC01Bool(secure))
-			if errors.Is(err, dnssec.ErrWildcardNoDenial) {
-				res = "WRes false false"
-			} else if err != nil {
-				res = "WErr " + vC01ErrTerm(err)
-			}
-			out = append(out, fmt.Sprintf("(%d,%s,%s,%s)", x.msgs[m], x.w.name(nc), x.w.name(s), res))
 		}
 	}
 	return out
@@ -630,6 +684,8 @@ type vC01Force struct {
 	Tampers   []int    // tamper kinds, in order
 	Companion bool     // repeat the call with the trust set emptied
 	Variant   string   // verifyDNSSEC-on-own-DNSKEY-answer variant ("" = none)
+	NoDenial  bool     // shape 0: the wildcard expansion comes without the zone's own next-closer denial
+	Pad       int      // shape 0: authority padding (0 none, 3 foreign NSEC, 4 parent-signed, 5 foreign NSEC3, 6 straddling)
 }
 
 var vC01F *vC01Force
@@ -691,6 +747,7 @@ func vC01MidCase(rnd *rand.Rand, r *Resolver, tr *vC01Trace) {
 	var resp *dns.Msg
 	genuine := true
 	negative := false
+	wildNoDenial := false // a wildcard expansion that arrives without the zone's own next-closer denial
 	switch {
 	case mode < 5: // positive answer
 		resp = x.newMsg(qname, dns.TypeA)
@@ -707,10 +764,49 @@ func vC01MidCase(rnd *rand.Rand, r *Resolver, tr *vC01Trace) {
 					rr.Header().Name = qname
 				}
 				resp.Answer = l
-				if rnd.Intn(4) != 0 {
+				if rnd.Intn(4) != 0 && (vC01F == nil || !vC01F.NoDenial) {
 					resp.Ns = x.nsec(z, z.name, dns.TypeSOA, dns.TypeRRSIG, dns.TypeNSEC)
 				} else {
 					kinds = append(kinds, "wildcard-no-denial")
+					wildNoDenial = true
+				}
+				// authority padding that is NOT the zone's own denial: records owned outside the answering zone whose span
+				// covers the next closer name (unsigned, signed by the parent, hashed), or an in-zone owner whose next
+				// name points out of the zone. None of them may count as the RFC 4035 5.3.4 proof.
+				pad := rnd.Intn(7)
+				if vC01F != nil {
+					pad = vC01F.Pad
+				}
+				if lo, hi := vC01Siblings(z.name); lo != "" && pad >= 3 {
+					var extra []dns.RR
+					span := &dns.NSEC{Hdr: dns.RR_Header{Name: lo, Rrtype: dns.TypeNSEC, Class: dns.ClassINET, Ttl: 60}, NextDomain: hi, TypeBitMap: []uint16{dns.TypeA, dns.TypeRRSIG, dns.TypeNSEC}}
+					switch pad {
+					case 3:
+						extra = []dns.RR{span}
+						kinds = append(kinds, "pad:foreign-nsec")
+					case 4:
+						if p := z.parent; p != nil && p.signed && dns.IsSubDomain(p.name, lo) {
+							extra = x.sign(p, p.zsk, span)
+						} else {
+							extra = []dns.RR{span}
+						}
+						kinds = append(kinds, "pad:foreign-nsec-parent-signed")
+					case 5:
+						h := dns.HashName(qname, dns.SHA1, 0, "")
+						extra = []dns.RR{&dns.NSEC3{Hdr: dns.RR_Header{Name: vC01HashMinus(h) + "." + lo, Rrtype: dns.TypeNSEC3, Class: dns.ClassINET, Ttl: 60}, Hash: dns.SHA1, Flags: 0, Iterations: 0, SaltLength: 0, Salt: "", HashLength: 20,
+							NextDomain: vC01HashPlus(h), TypeBitMap: []uint16{dns.TypeA, dns.TypeRRSIG}}}
+						kinds = append(kinds, "pad:foreign-nsec3")
+					default:
+						st := dns.Copy(span).(*dns.NSEC)
+						st.Hdr.Name = x.sub("a", z.name)
+						extra = []dns.RR{st}
+						kinds = append(kinds, "pad:straddling-nsec")
+					}
+					if rnd.Intn(2) == 0 {
+						resp.Ns = append(extra, resp.Ns...)
+					} else {
+						resp.Ns = append(resp.Ns, extra...)
+					}
 				}
 				kinds = append(kinds, "wildcard")
 				break
@@ -1037,6 +1133,9 @@ func vC01MidCase(rnd *rand.Rand, r *Resolver, tr *vC01Trace) {
 			if !cd && chainSecure && !genuine && len(x.anchors) > 0 {
 				goFail = "altered data accepted under a signed chain"
 			}
+			if !cd && chainSecure && wildNoDenial && len(x.anchors) > 0 {
+				goFail = "a wildcard expansion was accepted under a signed chain without a next-closer denial from the zone itself"
+			}
 			for _, rr := range out.Answer {
 				if !cd && chainSecure && strings.EqualFold(rr.Header().Name, "www.elsewhere.") {
 					goFail = "a foreign record injected into the answer was served under a signed chain"
@@ -1061,9 +1160,11 @@ func vC01MidCase(rnd *rand.Rand, r *Resolver, tr *vC01Trace) {
 	}
 	if goFail != "" {
 		m["go_fail"] = goFail
-		if fkey != "" {
-			m["fkey"] = fkey
-		}
+	}
+	// F9 is what is OBSERVED, not the world: the island's own, untampered data or denial came back with AD because the
+	// unsigned DS below the insecure cut was taken as a trust link. Any other failure in such a world is judged strictly.
+	if fkey != "" && genuine && !wildNoDenial && strings.HasPrefix(goFail, "AD on ") {
+		m["fkey"] = fkey
 	}
 	tr.emit(m)
 
